@@ -4,7 +4,9 @@
 (* on one document:  init = the observation of a pristine instance of the  *)
 (* source; ev = open / access(k) / save (obs = observation of the file     *)
 (* just written, read by a fresh instance, exc = exception text or "") /   *)
-(* rewrite (obs = observation of the rewritten copy).                      *)
+(* rewrite (obs = observation of the rewritten copy) / refused (a save in  *)
+(* one form over a file of the other form that raised; obs = observation   *)
+(* of the target afterwards).                                              *)
 (* An observation is a sequence of sheets [name, tables], a table is       *)
 (* [name, nr, nc, values, formulas, formatted, rich, merges] with digests  *)
 (* of the canonical per-cell records (exempt cells already removed by the  *)
@@ -28,7 +30,8 @@ Same(a, b) == SameShape(a, b) /\ SameDims(a, b) /\ \A s \in 1..Len(a) : \A t \in
 FirstComp(a, b) == IF ~SameShape(a, b) THEN "sheets-tables" ELSE IF ~SameDims(a, b) THEN "dimensions"
                    ELSE (CHOOSE c \in Comps : \E s \in 1..Len(a) : \E t \in 1..Len(a[s].tables) : a[s].tables[t][c] # b[s].tables[t][c])
 StepOK == CASE Evt.op \in {"open", "access"} -> Evt.exc = ""
-            [] Evt.op \in {"save", "rewrite"} -> Evt.exc = "" /\ Same(orig, Evt.obs)
+            [] Evt.op \in {"save", "rewrite"} -> Evt.exc = "" /\ Same(orig, Evt.obs)       \* in either form (zip file, package folder)
+            [] Evt.op = "refused" -> Evt.exc = "" /\ Same(orig, Evt.obs)                    \* Lifecycle!RefusalKeeps: the target is as it was
             [] OTHER -> FALSE
 Clause == IF Evt.exc # "" THEN Evt.op \o ".raised" ELSE Evt.op \o ".differs." \o FirstComp(orig, Evt.obs)
 TInit == tid \in 1..Len(Traces) /\ l = 1 /\ orig = Traces[tid].init
